@@ -298,7 +298,7 @@ func (m *moduleSpec) render(p *projSpec) string {
 	}
 	for _, e := range m.LoadExt {
 		if e < len(p.Exts) {
-			fmt.Fprintf(&sb, "load(\"%s//:lib.dawn\", \"ext%d_f\", \"EXT%d_K\")\n", extAlias(e), e, e)
+			fmt.Fprintf(&sb, "load(\"%s//:lib.dawn\", ext%d_f = \"ext_f\", EXT%d_K = \"EXT_K\")\n", extAlias(e), e, e)
 		}
 	}
 	sb.WriteString(strings.Repeat("\n", m.Blank))
@@ -395,7 +395,7 @@ func (p *projSpec) renderBuild(pk *pkgSpec) string {
 	}
 	for e := range p.Exts {
 		if usedExt[e] {
-			fmt.Fprintf(&sb, "load(\"%s//:lib.dawn\", \"ext%d_f\", \"EXT%d_K\")\n", extAlias(e), e, e)
+			fmt.Fprintf(&sb, "load(\"%s//:lib.dawn\", ext%d_f = \"ext_f\", EXT%d_K = \"EXT_K\")\n", extAlias(e), e, e)
 		}
 	}
 	for _, e := range pk.LoadsUtl {
